@@ -19,6 +19,8 @@ TITLE = {'kex': 'Key exchanges', 'key': 'Host keys', 'enc': 'Ciphers', 'mac': 'M
 RSA_FAMILY = ['ssh-rsa', 'rsa-sha2-256', 'rsa-sha2-512']
 RSA_CERT = 'ssh-rsa-cert-v01@openssh.com'
 ED_CERT = 'ssh-ed25519-cert-v01@openssh.com'
+RSA_CERTS = [RSA_CERT, 'rsa-sha2-256-cert-v01@openssh.com', 'rsa-sha2-512-cert-v01@openssh.com']      # the last two are answered with a blob of the first kind, as real servers do
+ECDSA = ['ecdsa-sha2-nistp256', 'ecdsa-sha2-nistp384', 'ecdsa-sha2-nistp521']
 GEX = 'diffie-hellman-group-exchange-sha256'
 GEX1 = 'diffie-hellman-group-exchange-sha1'
 
@@ -32,7 +34,11 @@ def peer_spec(case, lists=None, sizes=None):
             hk[k] = {'t': 'rsa', 'bits': sizes['rsa']}
     hk['ssh-ed25519'] = {'t': 'ed25519'}
     ca = {'t': 'rsa', 'bits': sizes['ca']} if sizes['ca_type'] == 'rsa' else ({'t': 'ed25519'} if sizes['ca_type'] == 'ed25519' else {'t': 'ecdsa', 'curve': 'nistp256'})
-    hk[RSA_CERT] = {'t': 'cert', 'kind': RSA_CERT, 'bits': sizes['cert_host'], 'ca': ca}
+    for c in RSA_CERTS:
+        hk[c] = {'t': 'cert', 'kind': RSA_CERT, 'bits': sizes['cert_host'], 'ca': ca}
+    for c in ECDSA:
+        hk[c] = {'t': 'ecdsa', 'curve': c[-8:]}
+    hk['ssh-ed448'] = {'t': 'ed448'}
     hk[ED_CERT] = {'t': 'cert', 'kind': ED_CERT, 'ca': ca}
     spec = {'banner': case.get('banner', 'SSH-2.0-OpenSSH_9.6'), 'kex': lists['kex'], 'key': lists['key'], 'enc': lists['enc'], 'mac': lists['mac'], 'enc_c': case.get('enc_c'), 'mac_c': case.get('mac_c'), 'hostkeys': {k: v for k, v in hk.items() if k in lists['key'] or k in RSA_FAMILY}}
     if any(k.startswith('diffie-hellman-group-exchange') for k in lists['kex']):
@@ -77,7 +83,7 @@ def perturbations(case):
         for d in (+1024, -1024):
             if S['rsa'] + d >= 1024:
                 yield ('rsa-size%+d' % d, 'Host key (%s) sizes' % sorted(probed_rsa)[0], L, dict(S, rsa=S['rsa'] + d))
-    for cert in (RSA_CERT, ED_CERT):
+    for cert in RSA_CERTS + [ED_CERT]:
         if cert in L['key']:
             if S['ca_type'] == 'rsa':
                 for d in (+1024, -1024):
@@ -86,8 +92,8 @@ def perturbations(case):
                 yield ('ca-type-%s' % cert[:8], 'CA signature type', L, dict(S, ca_type='ed25519'))
             else:
                 yield ('ca-type-%s' % cert[:8], 'CA signature type', L, dict(S, ca_type='rsa'))
-            if cert == RSA_CERT:
-                yield ('cert-host-size', 'Host key (%s) sizes' % cert, L, dict(S, cert_host=S['cert_host'] + 1024))
+            if cert in RSA_CERTS:
+                yield ('cert-host-size-%s' % cert[:12], 'Host key (%s) sizes' % cert, L, dict(S, cert_host=S['cert_host'] + 1024))
     if GEX in L['kex']:
         for d in (+1024, -1024):
             if S['gex'] + d >= (2048 if S.get('gex_style') == 'openssh' else 1024):      # an OpenSSH-style server never hands out less than 2048
@@ -161,6 +167,39 @@ def eval_case(case):
                         c = [k for k, v in TITLE.items() if v == e['mismatched_field']][0]
                         if e['actual'] != (lists[c] or ['']) or e['expected_required'] != (case['lists'][c] or ['']):      # an empty name-list is shown as one empty name
                             fails.append(['drift-error-content', '%s: %r' % (label, e)])
+        # the same policy against several targets in one invocation: the target itself twice, then a drifted one
+        # (a measured attribute if there is one); every target must get its own verdict
+        multi = None
+        perts = list(perturbations(case)) if case['role'] == 'server' else []
+        if perts:
+            sized = [p for p in perts if p[3] is not case['sizes']]
+            label, field, lists, sizes = (sized or perts)[(len(case['lists']['kex']) + len(case['lists']['enc'])) % len(sized or perts)]
+            multi = label
+            net = fakenet.FakeNet()
+            net.add('s0', 22, fakenet.Server(spec0))
+            net.add('s1', 22, fakenet.Server(spec0))
+            net.add('s2', 22, fakenet.Server(peer_spec(case, lists, sizes)))
+            tf = os.path.join(d, 'targets.txt')
+            with open(tf, 'w') as f:
+                f.write('s0\ns1\ns2\n')
+            r = drive.run_cli(['-n', '-j', '--skip-rate-test', '--threads', '1', '-P', path, '-T', tf], net)
+            os.unlink(tf)
+            if r.exc or r.hang:
+                fails.append([drive.crash_sig(r) + '-policy-run' if r.exc else 'hang', r.brief()])
+            else:
+                try:
+                    docs = {x['host']: x for x in json.loads(r.out)}
+                    got = [(docs[h]['passed'], [e['mismatched_field'] for e in docs[h]['errors']]) for h in ('s0', 's1', 's2')]
+                except (ValueError, KeyError, TypeError):
+                    got = None
+                if got is None:
+                    fails.append(['policy-json-unparseable', r.out[-200:]])
+                elif not (got[0] == (True, []) and got[1] == (True, [])):
+                    fails.append(['made-policy-fails-on-its-own-target-in-multi-target-run', 'verdicts %r (third target drifted: %s)' % (got, label)])
+                elif got[2][0] or r.code != 3:
+                    fails.append(['drift-not-detected-in-multi-target-run:%s' % label.split('+')[0].split('-1')[0], '%s: exit %d, verdicts %r' % (label, r.code, got)])
+                elif not any(e == field or (field.startswith('Host key (') and e.startswith('Host key (')) for e in got[2][1]):
+                    fails.append(['drift-error-names-wrong-field', 'multi-target run, %s: errors %r, expected %r' % (label, got[2][1], field)])
     finally:
         try:
             os.unlink(path)
@@ -170,6 +209,9 @@ def eval_case(case):
     flat = [n for c in CATS for n in case['lists'][c]]
     special = any(ch in n for n in flat for ch in '=+/')
     cl = ['roundtrip', 'role:' + case['role'], 'perturbations:%d' % min(n_pert, 20)] + (['special-chars'] if special else []) + (['probeable'] if case.get('probeable') else [])
+    if multi:
+        cl.append('multi-target-drift:' + multi.split('+')[0].split('-1')[0].split('-')[0])
+    cl += ['key:' + k for k in case['lists']['key'] if k in RSA_CERTS[1:] + ECDSA + ['ssh-ed448']]
     return mkres(case, nt=True, classes=cl, fails=fails)
 
 
@@ -204,7 +246,7 @@ def strat_peer():
             case['mac_c'] = ['hmac-sha2-512'] + case['lists']['mac']
         return case
     return st.tuples(st.lists(nm('kex'), min_size=1, max_size=5), st.lists(nm('key'), min_size=0, max_size=3), st.lists(nm('enc'), min_size=1, max_size=5), st.one_of(st.lists(nm('mac'), min_size=1, max_size=5), st.lists(nm('mac'), min_size=1, max_size=5), st.lists(nm('mac'), min_size=1, max_size=5), st.just([])),
-                     st.one_of(st.none(), st.sampled_from(PROBE_KEX), st.sampled_from(PROBE_KEX)), st.lists(st.sampled_from(['ssh-rsa', 'rsa-sha2-512', 'rsa-sha2-256', 'ssh-ed25519', RSA_CERT, ED_CERT]), min_size=1, max_size=4, unique=True),
+                     st.one_of(st.none(), st.sampled_from(PROBE_KEX), st.sampled_from(PROBE_KEX)), st.lists(st.sampled_from(['ssh-rsa', 'rsa-sha2-512', 'rsa-sha2-256', 'ssh-ed25519', RSA_CERT, ED_CERT, 'ssh-rsa', RSA_CERT, ED_CERT] + RSA_CERTS[1:] + ECDSA[:1] + ['ssh-ed448']), min_size=1, max_size=4, unique=True),
                      st.sampled_from(['server', 'server', 'server', 'client']), st.sampled_from([2048, 3072, 4096]), st.sampled_from([2048, 3072, 4096]), st.sampled_from(['rsa', 'rsa', 'ed25519']), st.sampled_from([2048, 3072, 4096]),
                      st.sampled_from([2048, 3072, 4096]), st.booleans()).map(build)
 
